@@ -16,7 +16,7 @@ from ..hworld import HWorld
 
 ID = "C05"
 LEVEL = "fault_enumeration"
-RUNS = {"quick": 2000, "thorough": 12000}
+RUNS = {"quick": 1200, "thorough": 8000}
 RULE = (
     "each run: seeded prior history (direct ops, earlier committed/aborted batches, reopen; prune on/off; lru-cache "
     "knob), one target squash_changes batch of k = 0..8 operations, and a seeded suffix of operations and lookups. "
@@ -46,6 +46,7 @@ FAULTS = [
     "batch-abort",
     "batch-abort-base",
     "batch-abort-library-exception",
+    "batch-abandoned-generator-exit",
     "write-fail-applied",
     "write-fail-not-applied",
     "withhold-node",
@@ -309,7 +310,7 @@ def explore(rng, st):
     st.nontrivial = bool(st.info.get("commit_changed"))
     # 2. client exception after every position
     for p in range(k + 1):
-        for flavour in ("E", "B"):
+        for flavour in ("E", "B", "G"):
             execute(variant(base, (p, [{"op": "babort", "exc": flavour}])), st)
         st.probe("abort-after-0-ops" if p == 0 else ("abort-after-all-ops" if p == k else "abort-mid-batch"))
     # 3. the p-th batch operation raises and the client does not catch it
